@@ -29,6 +29,10 @@ pub mod stdspec {
         requires x != i64::MIN
         ensures r == (if x < 0 { -x } else { x as int });
 
+    // rule R25: `std::cmp::min(a, b)` on usize operands (generic `min<T: Ord>` cannot be given a spec here): assumed contract
+    #[verifier::external_body]
+    pub fn min_usize(a: usize, b: usize) -> (r: usize) ensures r == (if a <= b { a } else { b }) { core::cmp::min(a, b) }
+
     // rule R22: `<[usize]>::contains` on a 2-array (assumed contract)
     #[verifier::external_body]
     pub fn arr2_contains(a: [usize; 2], x: usize) -> (r: bool) ensures r == (a[0] == x || a[1] == x) { a.contains(&x) }
